@@ -23,13 +23,13 @@ func c07Rules() *RuleSet {
 			return false
 		}
 		key := m.Prov(args[1])
-		return decoded(m, args[0]) && key.Has("call:fdo.Voucher.DevicePublicKey") && key.Has(rvblob)
+		return decodedX(m, args[0]) && key.HasX("call:fdo.Voucher.DevicePublicKey") && key.HasX(rvblob)
 	}
 	return &RuleSet{
 		Atoms: []AtomDef{
 			errNil("nonce-read", "reading the session's TO1 proof nonce succeeded", nonceRead, nil),
 			equal("nonce-eq", "decoded EAT nonce equals the nonce issued in this session",
-				provAnd(decoded, lacksProv("call:fdo.TO1SessionState.TO1ProofNonce")), hasProv("call:fdo.TO1SessionState.TO1ProofNonce")),
+				provAnd(decodedX, lacksProv("call:fdo.TO1SessionState.TO1ProofNonce")), hasProvX("call:fdo.TO1SessionState.TO1ProofNonce")),
 			AtomDef{Name: "ueid-len-ok", Doc: "decoded UEID has length 1+len(GUID)", Edge: func(m *Matcher, p Pred, holds bool) bool {
 				if p.Kind != "eq" || !holds {
 					return false
@@ -40,7 +40,7 @@ func c07Rules() *RuleSet {
 				}
 				n, ok := constInt(c)
 				l := lenOf(m, x)
-				return ok && n == 17 && l != nil && decoded(m, l)
+				return ok && n == 17 && l != nil && decodedX(m, l)
 			}},
 			AtomDef{Name: "ueid-type-ok", Doc: "decoded UEID type byte is RAND", Edge: func(m *Matcher, p Pred, holds bool) bool {
 				if p.Kind != "eq" || !holds {
@@ -58,12 +58,12 @@ func c07Rules() *RuleSet {
 					return false
 				}
 				ia, ok := ld.(*ssa.IndexAddr)
-				return ok && isConstInt(ia.Index, 0) && decoded(m, ia.X)
+				return ok && isConstInt(ia.Index, 0) && decodedX(m, ia.X)
 			}},
 			errNil("blob-read", "RVBlob for the GUID taken from the decoded UEID returned no error", named("fdo.RendezvousBlobPersistentState.RVBlob"),
-				func(m *Matcher, _ ssa.CallInstruction, args []ssa.Value) bool { return len(args) == 3 && decoded(m, args[2]) }),
+				func(m *Matcher, _ ssa.CallInstruction, args []ssa.Value) bool { return len(args) == 3 && decodedX(m, args[2]) }),
 			errNil("devkey-ok", "DevicePublicKey of the registered voucher returned no error", named("fdo.Voucher.DevicePublicKey"),
-				func(m *Matcher, _ ssa.CallInstruction, args []ssa.Value) bool { return m.Prov(args[0]).Has(rvblob) }),
+				func(m *Matcher, _ ssa.CallInstruction, args []ssa.Value) bool { return m.Prov(args[0]).HasX(rvblob) }),
 			boolTrue("eat-sig-true", "Sign1.Verify of the decoded token under the registered voucher's device key returned true", named("fdo/cose.Sign1.Verify"), 0, verifyArgs),
 			errNil("eat-sig-noerr", "that Verify returned no error", named("fdo/cose.Sign1.Verify"), verifyArgs),
 			// sqlite backend
